@@ -359,9 +359,19 @@ class SimplicialComplex:
         # force the map to be a function
         f = self._createRelabelling(rename)
 
+        # check the whole renaming before we change anything
+        ss = list(self.simplices())   # grab so we can change the structure
+        names = set(ss)
+        for s in ss:
+            sprime = f(s)
+            if s != sprime:
+                if sprime in names:
+                    raise ValueError(f'Relabeling attempting to re-write {s} to existing simplex {sprime}')
+                names.remove(s)
+                names.add(sprime)
+
         # perform the renaming
         mapping = dict()
-        ss = list(self.simplices())   # grab so we can change the structure
         for s in ss:
             sprime = f(s)
             if s != sprime:
